@@ -226,3 +226,21 @@ def run(ck, F):
         ck.check(R5, name, bool(hits) and (not first_nodes or min(hits) < min(first_nodes)),
                  f'{fid}: no path returns the constant before a dynamic node is produced: '
                  f'{[(p["when"][:50], p.get("result") or p.get("class")) for p in paths]}', loc=f['loc'], fn=fid)
+    # spelling -> identifier: a reserved spelling (every built-in type and symbolic constant is named by one) never reaches the
+    # insertion of a dynamic Identifier; the routes identifier -> as-type / label above compare by identity with the constants'
+    # names, so a look-alike Identifier yields a look-alike type or label
+    R6 = ck.rule('C13.reserved-spellings', 'asking for the Identifier of a spelling yields the reserved-word node for every row of the '
+                 'reserved-word table: each path of get_identifier that inserts a dynamic Identifier follows a failed search of that table or '
+                 'is taken for no row (guards on the spelling evaluated row by row) -- otherwise identifier -> as-type / label cannot reach '
+                 'the constant', floor=2)
+    import words
+    import keyrule
+    gids = [f for f in F.fn.values() if f['name'] == 'get_identifier' and (f.get('parent') or '').endswith('name_factory') and len(f['params']) == 1]
+    if len(gids) < 2:
+        raise AnalysisBroken(f'get_identifier overloads found: {len(gids)}')
+    for f in sorted(gids, key=lambda f: f['id']):
+        routes_ = words.spelling_routes(F, f['id'], keyrule.key_opaque(F))
+        bad = [(w, [x.decode('utf-8', 'replace') for x in ps[:3]]) for w, ps, _s in routes_ if ps]
+        ck.check(R6, 'get_identifier(' + contracts.short(f['params'][0]['t']) + ')', not bad,
+                 f'{f["id"]}: the reserved spelling(s) {[b[1] for b in bad]} get a dynamic look-alike Identifier (path {[b[0][:100] for b in bad]}): '
+                 'the built-in type / constant they name is no longer reached through them', loc=f['loc'], fn=f['id'])
